@@ -17,8 +17,10 @@ from gen import wire
 
 RULE = ("random trees over a 3-tag and a realistic tag alphabet x random rendering choices per node (end tag or not, "
         "whitespace from {none, blank, LF, CRLF+indent, tabs, U+00A0, U+0085, U+001C, VT/FF}, CDATA or plain, entity-escaped "
-        "data, '>' ']' ']]' in data); 90% of the renderings drawn inside the strict grammar (guards G2, G3 of "
-        "C02_complete_partial), 10% in the full grammar; all trees of <= 2 nodes over {A,B,C1} x 4 data x every rendering "
+        "data, '>' ']' ']]' in data; white space after a CDATA section with and without the element's own end tag); 90% of "
+        "the renderings drawn inside the strict grammar (guard G3 of C02_complete_partial), 10% in the full grammar; "
+        "`<A><B><![CDATA[x]]>c</B></A>` and `...]]>c<C>1</A>` for every white-space code point c and for 16 look-alikes "
+        "that are not white space; re's \\s against str.isspace on every code point; all trees of <= 2 nodes over {A,B,C1} x 4 data x every rendering "
         "choice over 4 whitespace values (both tiers); thorough adds all trees of 3-5 nodes x uniform style vectors and all "
         "3-node trees x every choice over 2 whitespace values; token soup for the lexer. A case is non-trivial when the "
         "implementation returned a tree; distinct by document text")
@@ -52,13 +54,17 @@ def model_build(rep):
     return ["bad", rep.raw], None
 
 
-def classify(guards):
-    if "G2" in guards:
-        return "cdata_space_before_end_tag"
+def classify(guards, rt=None):
     if "G3" in guards:
         return "leaf_with_parent_tag_last_child"
+    if rt is not None and wire.rt_g2(rt):
+        return "cdata_space_before_end_tag"      # repaired finding: must not come back
     return None
 
+
+# code points that look like white space but are not (`str.isspace()` false): they must stay `tail` text after `]]>`
+NOT_SPACE = [0x200B, 0x200C, 0x200D, 0x2060, 0xFEFF, 0x180E, 0x00AD, 0x2028 + 2, 0x1B, 0x7F, 0x08, 0x0E, 0x2800, 0x3164,
+             0x115F, 0x61]
 
 WITNESSES = [
     # (rt, lead) -- the known findings' witnesses, run first
@@ -111,7 +117,8 @@ def run(ctx):
             model, mkind = model_build(rep_build[i])
             ctx.stat("impl:" + (impl[0] if impl[0] == "ok" else "err:" + str(ikind)))
             ctx.stat("nodes:%d" % min(wire.rt_nodes(rt), 30))
-            ctx.stat("guards:" + ("".join(sorted(set(guards))) or "strict") + ("" if wire.cd_safe(doc) else "+two-]]>-on-a-line"))
+            ctx.stat("guards:" + ("".join(sorted(set(guards))) or "strict") + ("" if wire.cd_safe(doc) else "+two-]]>-on-a-line")
+                     + ("+ws-after-]]>-before-end-tag" if wire.rt_g2(rt) else ""))
             ctx.compare("build", {"doc": doc}, impl, model, nontrivial=(impl[0] == "ok"))
             if impl[0] == "err" and model[0] == "err" and ikind != mkind:
                 ctx.stat("errkind-differs")
@@ -121,7 +128,7 @@ def run(ctx):
             ctx.sample({"case": {"doc": doc}, "impl": impl, "model": model, "expected_tree": want})
             # ---- oracle: the property itself ----
             if impl != ["ok", ["some", want]]:
-                tag = classify(guards) or ("valid_rendering_rejected" if impl[0] == "err" else "wrong_tree")
+                tag = classify(guards, rt) or ("valid_rendering_rejected" if impl[0] == "err" else "wrong_tree")
                 violate(tag, case,
                         f"rendering of {wire.rt_abs(rt)!r} parsed to {impl} ({ikind or ''}) instead of the rendered tree",
                         {"guards": guards, "outcome": impl[0]})
@@ -145,6 +152,19 @@ def run(ctx):
 
     for rt, lead in WITNESSES:
         add(rt, lead)
+    # ---- `\s*` after a CDATA section: every white-space code point, alone, before the element's end tag / a sibling ----
+    import re as _re
+    ctx.evaluations += 1
+    re_space = [c for c in range(0x110000) if _re.fullmatch(r"\s", chr(c))]
+    py_space = [c for c in range(0x110000) if chr(c).isspace()]
+    if re_space != py_space or [chr(c) for c in py_space] != wire.PYSPACE:
+        ctx.disagree("re-whitespace-vs-str.isspace", {"doc": ""}, py_space, re_space)
+    for c in wire.PYSPACE:
+        add(("a", "A", "", [("c", "B", "x", c, True, "")], ""))
+        add(("a", "A", "", [("c", "B", "x", c, False, c), ("l", "C", "1", "", "", False, c)], ""))
+        add(("a", "A", c, [("c", "B", "x", c + " " + c, True, c)], c), c)
+    ctx.exhaustive.append("every white-space code point (29) between ']]>' and the element's own end tag, and after an unclosed "
+                          "CDATA element; 16 non-white-space look-alikes there (lex + build only)")
     # ---- random renderings ----------------------------------------------------------------------------------
     n = ctx.budget(9000, 150000)
     for i in range(n):
@@ -195,6 +215,9 @@ def run(ctx):
     # ---- lexer / builder soup ----------------------------------------------------------------------
     m = ctx.budget(6000, 120000)
     soups = [wire.soup(rng, rng.choice((1, 2, 3, 5, 8, 12))) for _ in range(m)]
+    for cp in NOT_SPACE:       # not white space: `tail` text, refused
+        soups.append("<A><B><![CDATA[x]]>%s</B></A>" % chr(cp))
+        soups.append("<A><B><![CDATA[x]]> %s\n<C>1</A>" % chr(cp))
     soups = list(dict.fromkeys(soups))
     rl = ctx.model.ask([line("lex", d) for d in soups])
     rb = ctx.model.ask([line("build", d) for d in soups])
